@@ -47,7 +47,7 @@ variables
   procs = {}, alive = [p \in Pids |-> "unborn"], holding = [p \in Pids |-> 0], exitLock = [p \in Pids |-> 0],
   announced = [p \in Pids |-> FALSE],
   rlock = "free", wlock = "free", mgmt = "free", shut = "free",
-  mgrStarted = FALSE, mgr = "run",
+  mgrStarted = FALSE, mgr = "run", unew = 0, mnew = 0,
   watch = {}, ready = "none", msg = <<>>, cur = 0, nStop = 0, nSent = 0,
   crashes = 0, timeouts = 0, cancels = 0,
   \* ghosts
@@ -63,9 +63,11 @@ define
   Busy == {p \in Pids : Alive(p) /\ holding[p] # 0}
 end define;
 
-macro spawnOne() begin
+\* _adjust_process_count: Process.start() -- the worker runs from here on -- and only then its registration in
+\* executor._processes (the window in which a worker exists that no sentinel snapshot can contain: D3, D19)
+macro startOne(v) begin
   with p \in Fresh do
-     procs := procs \cup {p}; alive[p] := "alive";
+     alive[p] := "alive"; v := p;
   end with;
 end macro;
 
@@ -79,7 +81,10 @@ begin
  uenq:   pending := pending \cup {ut}; fut[ut] := "pending"; workIds := Append(workIds, ut);
  uwake1: if ~WakeAfterSpawn then wake := wake + 1; end if;
  ulock:  await mgmt = "free"; mgmt := "U";
- uspawn: while NeedSpawn do spawnOne(); end while;
+ uspawn: while NeedSpawn do
+            startOne(unew);
+ ureg:      procs := procs \cup {unew};
+         end while;
  ustart: mgrStarted := TRUE;
  uunlock: mgmt := "free";
  uwake2: if WakeAfterSpawn then wake := wake + 1; end if;
@@ -166,7 +171,10 @@ begin
                 elsif Cardinality(procs) < MaxW then
                    if refsDropped then mgr := "crashed"; goto mdone; end if;
  mrlock:           await mgmt = "free"; mgmt := "M";
- mrspawn:          while NeedSpawn do spawnOne(); end while;
+ mrspawn:          while NeedSpawn do
+                      startOne(mnew);
+ mrreg:               procs := procs \cup {mnew};
+                   end while;
  mrunlock:         mgmt := "free";
                 end if;
              end if;
@@ -206,10 +214,8 @@ begin
                       \* queue locks dirty: the others are killed (there is no pending work here)
                       await \E p \in procs : Dead(p);
                       with p \in {q \in procs : Dead(q)} do
-                         if alive[p] = "dead" then
-                            alive := [q \in Pids |-> IF q \in procs /\ Alive(q) THEN "dead" ELSE alive[q]];
-                            procs := {};
-                         else procs := procs \ {p}; end if;
+                         procs := procs \ {p};
+                         if alive[p] = "dead" then goto mj5k; end if;
                       end with;
                    else
                       with p \in procs do
@@ -221,6 +227,13 @@ begin
                       end with;
                    end if;
                 end while;
+                goto mj6;
+ mj5k:          while procs # {} do                 \* kill_workers(): one SIGKILL + join per remaining worker
+                   with p \in procs do
+                      alive[p] := IF Dead(p) THEN alive[p] ELSE "dead"; procs := procs \ {p};
+                   end with;
+                end while;
+                if CloseReaderOnKill then rdClosed := TRUE; end if;
  mj6:           mgmt := "free"; mgr := "done"; goto mdone;
              end if;
           end if;
@@ -266,8 +279,13 @@ begin
  wrlt:         await Alive(self); rlock := "free"; goto wtmo;
         end either;
  wrecv: await Alive(self); item := Head(pipe); pipe := Tail(pipe);
+        \* Queue.get: with a timeout the slot is released inside the read lock, without one after it
+        if ~HasTimeout then goto wrlrel0; end if;
  wsem:  await Alive(self); sem := sem + 1;
  wrlrel: await Alive(self); rlock := "free";
+        if item = Sentinel then goto wann; else goto wunl; end if;
+ wrlrel0: await Alive(self); rlock := "free";
+ wsem0: await Alive(self); sem := sem + 1;
         if item = Sentinel then goto wann; end if;
  wunl:  await Alive(self);
         if Kind[item] = "unload" then                        \* cannot un-pickle the task: report and exit(1)
@@ -285,12 +303,19 @@ begin
         holding[self] := 0;
  wwrel: await Alive(self); wlock := "free"; goto wrl;
  wtmo:  await Alive(self);                                  \* idle timeout: leave only if nobody is spawning / shutting down
-        if mgmt = "free" then mgmt := self; else goto wrl; end if;
+        \* acquire(block=False): fails when the lock is held -- also during the short critical sections of the manager
+        \* that the specification performs as one step (pop of an exiting worker, shutdown_workers, counting children)
+        either await mgmt = "free"; mgmt := self;
+        or     await mgmt # "free" \/ pc["M"] \in {"mpop", "mrel", "mj1", "mj2"}; goto wrl;
+        end either;
  wmrel: await Alive(self); mgmt := "free";
  wann:  await Alive(self) /\ wlock = "free"; wlock := self;  \* announce the exit: put(pid)
  wann2: await Alive(self); rq := Append(rq, <<"pid", self>>); announced[self] := TRUE;
  wann3: await Alive(self); wlock := "free";
- wexl:  await Alive(self) /\ exitLock[self] = 1;             \* exit handshake
+ wexl:  await Alive(self);                                  \* exit handshake: released by the manager, or the 30 s
+        either await exitLock[self] = 1;                     \* grace period expires and the worker leaves anyway
+        or     await exitLock[self] # 1 /\ timeouts < MaxTimeout; timeouts := timeouts + 1;
+        end either;
  wexit: await Alive(self); alive[self] := "clean";
  wend:  skip;
 end process;
@@ -304,7 +329,7 @@ begin
           hit := hit \cup (IF pc[p] = "wsend2" /\ holding[p] # 0 /\ Kind[holding[p]] = "big" THEN {"D7"} ELSE {})
                      \cup (IF mgmt = p THEN {"D14"} ELSE {})
                      \cup (IF pc[p] = "wann3" THEN {"D15"} ELSE {})
-                     \cup (IF pc["M"] \in {"mspend", "mj1", "mj2", "mj3", "mj4", "mj5l", "mj5"} /\ ~brokenF /\ ~JoinWatches THEN {"D16"} ELSE {});
+                     \cup (IF pc["M"] \in {"mspend", "mj1", "mj2", "mj3", "mj4", "mj5l", "mj5", "mj5k"} /\ ~brokenF /\ ~JoinWatches THEN {"D16"} ELSE {});
        end with;
      end while;
 end process;
@@ -313,9 +338,9 @@ end algorithm; *)
 VARIABLES pc, shutdownF, brokenF, killF, execAlive, refsDropped, globalExit, 
           pending, fut, workIds, running, sem, buf, pipe, cqClosed, rdClosed, 
           rq, wake, wkClosed, procs, alive, holding, exitLock, announced, 
-          rlock, wlock, mgmt, shut, mgrStarted, mgr, watch, ready, msg, cur, 
-          nStop, nSent, crashes, timeouts, cancels, execCount, cancelOK, hit, 
-          userDone, fop
+          rlock, wlock, mgmt, shut, mgrStarted, mgr, unew, mnew, watch, ready, 
+          msg, cur, nStop, nSent, crashes, timeouts, cancels, execCount, 
+          cancelOK, hit, userDone, fop
 
 (* define statement *)
 Fresh == {p \in Pids : alive[p] = "unborn"}
@@ -331,9 +356,9 @@ VARIABLES ut, fobj, item
 vars == << pc, shutdownF, brokenF, killF, execAlive, refsDropped, globalExit, 
            pending, fut, workIds, running, sem, buf, pipe, cqClosed, rdClosed, 
            rq, wake, wkClosed, procs, alive, holding, exitLock, announced, 
-           rlock, wlock, mgmt, shut, mgrStarted, mgr, watch, ready, msg, cur, 
-           nStop, nSent, crashes, timeouts, cancels, execCount, cancelOK, hit, 
-           userDone, fop, ut, fobj, item >>
+           rlock, wlock, mgmt, shut, mgrStarted, mgr, unew, mnew, watch, 
+           ready, msg, cur, nStop, nSent, crashes, timeouts, cancels, 
+           execCount, cancelOK, hit, userDone, fop, ut, fobj, item >>
 
 ProcSet == {"U"} \cup {"C"} \cup {"M"} \cup {"F"} \cup (Pids) \cup {"E"}
 
@@ -367,6 +392,8 @@ Init == (* Global variables *)
         /\ shut = "free"
         /\ mgrStarted = FALSE
         /\ mgr = "run"
+        /\ unew = 0
+        /\ mnew = 0
         /\ watch = {}
         /\ ready = "none"
         /\ msg = <<>>
@@ -402,9 +429,9 @@ u0 == /\ pc["U"] = "u0"
                       globalExit, pending, fut, workIds, running, sem, buf, 
                       pipe, cqClosed, rdClosed, rq, wake, wkClosed, procs, 
                       alive, holding, exitLock, announced, rlock, wlock, mgmt, 
-                      shut, mgrStarted, mgr, watch, ready, msg, cur, nStop, 
-                      nSent, crashes, timeouts, cancels, execCount, cancelOK, 
-                      hit, userDone, fop, ut, fobj, item >>
+                      shut, mgrStarted, mgr, unew, mnew, watch, ready, msg, 
+                      cur, nStop, nSent, crashes, timeouts, cancels, execCount, 
+                      cancelOK, hit, userDone, fop, ut, fobj, item >>
 
 ucheck == /\ pc["U"] = "ucheck"
           /\ shut = "free"
@@ -419,9 +446,9 @@ ucheck == /\ pc["U"] = "ucheck"
                           globalExit, pending, fut, workIds, running, sem, buf, 
                           pipe, cqClosed, rdClosed, rq, wake, wkClosed, procs, 
                           alive, holding, exitLock, announced, rlock, wlock, 
-                          mgmt, mgrStarted, mgr, watch, ready, msg, cur, nStop, 
-                          nSent, crashes, timeouts, cancels, execCount, 
-                          cancelOK, hit, userDone, fop, fobj, item >>
+                          mgmt, mgrStarted, mgr, unew, mnew, watch, ready, msg, 
+                          cur, nStop, nSent, crashes, timeouts, cancels, 
+                          execCount, cancelOK, hit, userDone, fop, fobj, item >>
 
 uenq == /\ pc["U"] = "uenq"
         /\ pending' = (pending \cup {ut})
@@ -432,9 +459,9 @@ uenq == /\ pc["U"] = "uenq"
                         globalExit, running, sem, buf, pipe, cqClosed, 
                         rdClosed, rq, wake, wkClosed, procs, alive, holding, 
                         exitLock, announced, rlock, wlock, mgmt, shut, 
-                        mgrStarted, mgr, watch, ready, msg, cur, nStop, nSent, 
-                        crashes, timeouts, cancels, execCount, cancelOK, hit, 
-                        userDone, fop, ut, fobj, item >>
+                        mgrStarted, mgr, unew, mnew, watch, ready, msg, cur, 
+                        nStop, nSent, crashes, timeouts, cancels, execCount, 
+                        cancelOK, hit, userDone, fop, ut, fobj, item >>
 
 uwake1 == /\ pc["U"] = "uwake1"
           /\ IF ~WakeAfterSpawn
@@ -446,9 +473,10 @@ uwake1 == /\ pc["U"] = "uwake1"
                           globalExit, pending, fut, workIds, running, sem, buf, 
                           pipe, cqClosed, rdClosed, rq, wkClosed, procs, alive, 
                           holding, exitLock, announced, rlock, wlock, mgmt, 
-                          shut, mgrStarted, mgr, watch, ready, msg, cur, nStop, 
-                          nSent, crashes, timeouts, cancels, execCount, 
-                          cancelOK, hit, userDone, fop, ut, fobj, item >>
+                          shut, mgrStarted, mgr, unew, mnew, watch, ready, msg, 
+                          cur, nStop, nSent, crashes, timeouts, cancels, 
+                          execCount, cancelOK, hit, userDone, fop, ut, fobj, 
+                          item >>
 
 ulock == /\ pc["U"] = "ulock"
          /\ mgmt = "free"
@@ -458,25 +486,37 @@ ulock == /\ pc["U"] = "ulock"
                          globalExit, pending, fut, workIds, running, sem, buf, 
                          pipe, cqClosed, rdClosed, rq, wake, wkClosed, procs, 
                          alive, holding, exitLock, announced, rlock, wlock, 
-                         shut, mgrStarted, mgr, watch, ready, msg, cur, nStop, 
-                         nSent, crashes, timeouts, cancels, execCount, 
-                         cancelOK, hit, userDone, fop, ut, fobj, item >>
+                         shut, mgrStarted, mgr, unew, mnew, watch, ready, msg, 
+                         cur, nStop, nSent, crashes, timeouts, cancels, 
+                         execCount, cancelOK, hit, userDone, fop, ut, fobj, 
+                         item >>
 
 uspawn == /\ pc["U"] = "uspawn"
           /\ IF NeedSpawn
                 THEN /\ \E p \in Fresh:
-                          /\ procs' = (procs \cup {p})
                           /\ alive' = [alive EXCEPT ![p] = "alive"]
-                     /\ pc' = [pc EXCEPT !["U"] = "uspawn"]
+                          /\ unew' = p
+                     /\ pc' = [pc EXCEPT !["U"] = "ureg"]
                 ELSE /\ pc' = [pc EXCEPT !["U"] = "ustart"]
-                     /\ UNCHANGED << procs, alive >>
+                     /\ UNCHANGED << alive, unew >>
           /\ UNCHANGED << shutdownF, brokenF, killF, execAlive, refsDropped, 
                           globalExit, pending, fut, workIds, running, sem, buf, 
-                          pipe, cqClosed, rdClosed, rq, wake, wkClosed, 
+                          pipe, cqClosed, rdClosed, rq, wake, wkClosed, procs, 
                           holding, exitLock, announced, rlock, wlock, mgmt, 
-                          shut, mgrStarted, mgr, watch, ready, msg, cur, nStop, 
-                          nSent, crashes, timeouts, cancels, execCount, 
+                          shut, mgrStarted, mgr, mnew, watch, ready, msg, cur, 
+                          nStop, nSent, crashes, timeouts, cancels, execCount, 
                           cancelOK, hit, userDone, fop, ut, fobj, item >>
+
+ureg == /\ pc["U"] = "ureg"
+        /\ procs' = (procs \cup {unew})
+        /\ pc' = [pc EXCEPT !["U"] = "uspawn"]
+        /\ UNCHANGED << shutdownF, brokenF, killF, execAlive, refsDropped, 
+                        globalExit, pending, fut, workIds, running, sem, buf, 
+                        pipe, cqClosed, rdClosed, rq, wake, wkClosed, alive, 
+                        holding, exitLock, announced, rlock, wlock, mgmt, shut, 
+                        mgrStarted, mgr, unew, mnew, watch, ready, msg, cur, 
+                        nStop, nSent, crashes, timeouts, cancels, execCount, 
+                        cancelOK, hit, userDone, fop, ut, fobj, item >>
 
 ustart == /\ pc["U"] = "ustart"
           /\ mgrStarted' = TRUE
@@ -485,8 +525,8 @@ ustart == /\ pc["U"] = "ustart"
                           globalExit, pending, fut, workIds, running, sem, buf, 
                           pipe, cqClosed, rdClosed, rq, wake, wkClosed, procs, 
                           alive, holding, exitLock, announced, rlock, wlock, 
-                          mgmt, shut, mgr, watch, ready, msg, cur, nStop, 
-                          nSent, crashes, timeouts, cancels, execCount, 
+                          mgmt, shut, mgr, unew, mnew, watch, ready, msg, cur, 
+                          nStop, nSent, crashes, timeouts, cancels, execCount, 
                           cancelOK, hit, userDone, fop, ut, fobj, item >>
 
 uunlock == /\ pc["U"] = "uunlock"
@@ -496,10 +536,10 @@ uunlock == /\ pc["U"] = "uunlock"
                            globalExit, pending, fut, workIds, running, sem, 
                            buf, pipe, cqClosed, rdClosed, rq, wake, wkClosed, 
                            procs, alive, holding, exitLock, announced, rlock, 
-                           wlock, shut, mgrStarted, mgr, watch, ready, msg, 
-                           cur, nStop, nSent, crashes, timeouts, cancels, 
-                           execCount, cancelOK, hit, userDone, fop, ut, fobj, 
-                           item >>
+                           wlock, shut, mgrStarted, mgr, unew, mnew, watch, 
+                           ready, msg, cur, nStop, nSent, crashes, timeouts, 
+                           cancels, execCount, cancelOK, hit, userDone, fop, 
+                           ut, fobj, item >>
 
 uwake2 == /\ pc["U"] = "uwake2"
           /\ IF WakeAfterSpawn
@@ -511,9 +551,10 @@ uwake2 == /\ pc["U"] = "uwake2"
                           globalExit, pending, fut, workIds, running, sem, buf, 
                           pipe, cqClosed, rdClosed, rq, wkClosed, procs, alive, 
                           holding, exitLock, announced, rlock, wlock, mgmt, 
-                          shut, mgrStarted, mgr, watch, ready, msg, cur, nStop, 
-                          nSent, crashes, timeouts, cancels, execCount, 
-                          cancelOK, hit, userDone, fop, ut, fobj, item >>
+                          shut, mgrStarted, mgr, unew, mnew, watch, ready, msg, 
+                          cur, nStop, nSent, crashes, timeouts, cancels, 
+                          execCount, cancelOK, hit, userDone, fop, ut, fobj, 
+                          item >>
 
 uret == /\ pc["U"] = "uret"
         /\ shut' = "free"
@@ -523,9 +564,9 @@ uret == /\ pc["U"] = "uret"
                         globalExit, pending, fut, workIds, running, sem, buf, 
                         pipe, cqClosed, rdClosed, rq, wake, wkClosed, procs, 
                         alive, holding, exitLock, announced, rlock, wlock, 
-                        mgmt, mgrStarted, mgr, watch, ready, msg, cur, nStop, 
-                        nSent, crashes, timeouts, cancels, execCount, cancelOK, 
-                        hit, userDone, fop, fobj, item >>
+                        mgmt, mgrStarted, mgr, unew, mnew, watch, ready, msg, 
+                        cur, nStop, nSent, crashes, timeouts, cancels, 
+                        execCount, cancelOK, hit, userDone, fop, fobj, item >>
 
 uf == /\ pc["U"] = "uf"
       /\ \E op \in FinalOps:
@@ -535,9 +576,9 @@ uf == /\ pc["U"] = "uf"
                       globalExit, pending, fut, workIds, running, sem, buf, 
                       pipe, cqClosed, rdClosed, rq, wake, wkClosed, procs, 
                       alive, holding, exitLock, announced, rlock, wlock, mgmt, 
-                      shut, mgrStarted, mgr, watch, ready, msg, cur, nStop, 
-                      nSent, crashes, timeouts, cancels, execCount, cancelOK, 
-                      hit, userDone, ut, fobj, item >>
+                      shut, mgrStarted, mgr, unew, mnew, watch, ready, msg, 
+                      cur, nStop, nSent, crashes, timeouts, cancels, execCount, 
+                      cancelOK, hit, userDone, ut, fobj, item >>
 
 uf2 == /\ pc["U"] = "uf2"
        /\ IF fop \in {"shutdown_nowait", "shutdown_wait", "kill"}
@@ -558,9 +599,10 @@ uf2 == /\ pc["U"] = "uf2"
        /\ UNCHANGED << brokenF, execAlive, refsDropped, pending, fut, workIds, 
                        running, sem, buf, pipe, cqClosed, rdClosed, rq, wake, 
                        wkClosed, procs, alive, holding, exitLock, announced, 
-                       rlock, wlock, mgmt, shut, mgrStarted, mgr, watch, ready, 
-                       msg, cur, nStop, nSent, crashes, timeouts, cancels, 
-                       execCount, cancelOK, hit, userDone, fop, ut, fobj, item >>
+                       rlock, wlock, mgmt, shut, mgrStarted, mgr, unew, mnew, 
+                       watch, ready, msg, cur, nStop, nSent, crashes, timeouts, 
+                       cancels, execCount, cancelOK, hit, userDone, fop, ut, 
+                       fobj, item >>
 
 ufw == /\ pc["U"] = "ufw"
        /\ shut = "free"
@@ -577,9 +619,9 @@ ufw == /\ pc["U"] = "ufw"
                        pending, fut, workIds, running, sem, buf, pipe, 
                        cqClosed, rdClosed, rq, wkClosed, procs, alive, holding, 
                        exitLock, announced, rlock, wlock, mgmt, shut, 
-                       mgrStarted, mgr, watch, ready, msg, cur, nStop, nSent, 
-                       crashes, timeouts, cancels, execCount, cancelOK, hit, 
-                       userDone, fop, ut, fobj, item >>
+                       mgrStarted, mgr, unew, mnew, watch, ready, msg, cur, 
+                       nStop, nSent, crashes, timeouts, cancels, execCount, 
+                       cancelOK, hit, userDone, fop, ut, fobj, item >>
 
 ujoin == /\ pc["U"] = "ujoin"
          /\ IF fop # "shutdown_nowait" /\ mgrStarted
@@ -590,9 +632,10 @@ ujoin == /\ pc["U"] = "ujoin"
                          globalExit, pending, fut, workIds, running, sem, buf, 
                          pipe, cqClosed, rdClosed, rq, wake, wkClosed, procs, 
                          alive, holding, exitLock, announced, rlock, wlock, 
-                         mgmt, shut, mgrStarted, mgr, watch, ready, msg, cur, 
-                         nStop, nSent, crashes, timeouts, cancels, execCount, 
-                         cancelOK, hit, userDone, fop, ut, fobj, item >>
+                         mgmt, shut, mgrStarted, mgr, unew, mnew, watch, ready, 
+                         msg, cur, nStop, nSent, crashes, timeouts, cancels, 
+                         execCount, cancelOK, hit, userDone, fop, ut, fobj, 
+                         item >>
 
 udel == /\ pc["U"] = "udel"
         /\ shut = "free"
@@ -606,9 +649,9 @@ udel == /\ pc["U"] = "udel"
                         pending, fut, workIds, running, sem, buf, pipe, 
                         cqClosed, rdClosed, rq, wkClosed, procs, alive, 
                         holding, exitLock, announced, rlock, wlock, mgmt, shut, 
-                        mgrStarted, mgr, watch, ready, msg, cur, nStop, nSent, 
-                        crashes, timeouts, cancels, execCount, cancelOK, hit, 
-                        userDone, fop, ut, fobj, item >>
+                        mgrStarted, mgr, unew, mnew, watch, ready, msg, cur, 
+                        nStop, nSent, crashes, timeouts, cancels, execCount, 
+                        cancelOK, hit, userDone, fop, ut, fobj, item >>
 
 uexw == /\ pc["U"] = "uexw"
         /\ shut = "free"
@@ -621,9 +664,9 @@ uexw == /\ pc["U"] = "uexw"
                         globalExit, pending, fut, workIds, running, sem, buf, 
                         pipe, cqClosed, rdClosed, rq, wkClosed, procs, alive, 
                         holding, exitLock, announced, rlock, wlock, mgmt, shut, 
-                        mgrStarted, mgr, watch, ready, msg, cur, nStop, nSent, 
-                        crashes, timeouts, cancels, execCount, cancelOK, hit, 
-                        userDone, fop, ut, fobj, item >>
+                        mgrStarted, mgr, unew, mnew, watch, ready, msg, cur, 
+                        nStop, nSent, crashes, timeouts, cancels, execCount, 
+                        cancelOK, hit, userDone, fop, ut, fobj, item >>
 
 uexj == /\ pc["U"] = "uexj"
         /\ IF mgrStarted
@@ -634,9 +677,10 @@ uexj == /\ pc["U"] = "uexj"
                         globalExit, pending, fut, workIds, running, sem, buf, 
                         pipe, cqClosed, rdClosed, rq, wake, wkClosed, procs, 
                         alive, holding, exitLock, announced, rlock, wlock, 
-                        mgmt, shut, mgrStarted, mgr, watch, ready, msg, cur, 
-                        nStop, nSent, crashes, timeouts, cancels, execCount, 
-                        cancelOK, hit, userDone, fop, ut, fobj, item >>
+                        mgmt, shut, mgrStarted, mgr, unew, mnew, watch, ready, 
+                        msg, cur, nStop, nSent, crashes, timeouts, cancels, 
+                        execCount, cancelOK, hit, userDone, fop, ut, fobj, 
+                        item >>
 
 uend == /\ pc["U"] = "uend"
         /\ userDone' = TRUE
@@ -645,11 +689,11 @@ uend == /\ pc["U"] = "uend"
                         globalExit, pending, fut, workIds, running, sem, buf, 
                         pipe, cqClosed, rdClosed, rq, wake, wkClosed, procs, 
                         alive, holding, exitLock, announced, rlock, wlock, 
-                        mgmt, shut, mgrStarted, mgr, watch, ready, msg, cur, 
-                        nStop, nSent, crashes, timeouts, cancels, execCount, 
-                        cancelOK, hit, fop, ut, fobj, item >>
+                        mgmt, shut, mgrStarted, mgr, unew, mnew, watch, ready, 
+                        msg, cur, nStop, nSent, crashes, timeouts, cancels, 
+                        execCount, cancelOK, hit, fop, ut, fobj, item >>
 
-user == u0 \/ ucheck \/ uenq \/ uwake1 \/ ulock \/ uspawn \/ ustart
+user == u0 \/ ucheck \/ uenq \/ uwake1 \/ ulock \/ uspawn \/ ureg \/ ustart
            \/ uunlock \/ uwake2 \/ uret \/ uf \/ uf2 \/ ufw \/ ujoin
            \/ udel \/ uexw \/ uexj \/ uend
 
@@ -666,9 +710,9 @@ c0 == /\ pc["C"] = "c0"
                       globalExit, pending, workIds, running, sem, buf, pipe, 
                       cqClosed, rdClosed, rq, wake, wkClosed, procs, alive, 
                       holding, exitLock, announced, rlock, wlock, mgmt, shut, 
-                      mgrStarted, mgr, watch, ready, msg, cur, nStop, nSent, 
-                      crashes, timeouts, execCount, hit, userDone, fop, ut, 
-                      fobj, item >>
+                      mgrStarted, mgr, unew, mnew, watch, ready, msg, cur, 
+                      nStop, nSent, crashes, timeouts, execCount, hit, 
+                      userDone, fop, ut, fobj, item >>
 
 canceller == c0
 
@@ -679,9 +723,9 @@ m0 == /\ pc["M"] = "m0"
                       globalExit, pending, fut, workIds, running, sem, buf, 
                       pipe, cqClosed, rdClosed, rq, wake, wkClosed, procs, 
                       alive, holding, exitLock, announced, rlock, wlock, mgmt, 
-                      shut, mgrStarted, mgr, watch, ready, msg, cur, nStop, 
-                      nSent, crashes, timeouts, cancels, execCount, cancelOK, 
-                      hit, userDone, fop, ut, fobj, item >>
+                      shut, mgrStarted, mgr, unew, mnew, watch, ready, msg, 
+                      cur, nStop, nSent, crashes, timeouts, cancels, execCount, 
+                      cancelOK, hit, userDone, fop, ut, fobj, item >>
 
 mloop == /\ pc["M"] = "mloop"
          /\ pc' = [pc EXCEPT !["M"] = "mfull"]
@@ -689,9 +733,10 @@ mloop == /\ pc["M"] = "mloop"
                          globalExit, pending, fut, workIds, running, sem, buf, 
                          pipe, cqClosed, rdClosed, rq, wake, wkClosed, procs, 
                          alive, holding, exitLock, announced, rlock, wlock, 
-                         mgmt, shut, mgrStarted, mgr, watch, ready, msg, cur, 
-                         nStop, nSent, crashes, timeouts, cancels, execCount, 
-                         cancelOK, hit, userDone, fop, ut, fobj, item >>
+                         mgmt, shut, mgrStarted, mgr, unew, mnew, watch, ready, 
+                         msg, cur, nStop, nSent, crashes, timeouts, cancels, 
+                         execCount, cancelOK, hit, userDone, fop, ut, fobj, 
+                         item >>
 
 mfull == /\ pc["M"] = "mfull"
          /\ IF sem = 0 \/ workIds = <<>>
@@ -701,9 +746,10 @@ mfull == /\ pc["M"] = "mfull"
                          globalExit, pending, fut, workIds, running, sem, buf, 
                          pipe, cqClosed, rdClosed, rq, wake, wkClosed, procs, 
                          alive, holding, exitLock, announced, rlock, wlock, 
-                         mgmt, shut, mgrStarted, mgr, watch, ready, msg, cur, 
-                         nStop, nSent, crashes, timeouts, cancels, execCount, 
-                         cancelOK, hit, userDone, fop, ut, fobj, item >>
+                         mgmt, shut, mgrStarted, mgr, unew, mnew, watch, ready, 
+                         msg, cur, nStop, nSent, crashes, timeouts, cancels, 
+                         execCount, cancelOK, hit, userDone, fop, ut, fobj, 
+                         item >>
 
 mtake == /\ pc["M"] = "mtake"
          /\ cur' = Head(workIds)
@@ -713,8 +759,8 @@ mtake == /\ pc["M"] = "mtake"
                          globalExit, pending, fut, running, sem, buf, pipe, 
                          cqClosed, rdClosed, rq, wake, wkClosed, procs, alive, 
                          holding, exitLock, announced, rlock, wlock, mgmt, 
-                         shut, mgrStarted, mgr, watch, ready, msg, nStop, 
-                         nSent, crashes, timeouts, cancels, execCount, 
+                         shut, mgrStarted, mgr, unew, mnew, watch, ready, msg, 
+                         nStop, nSent, crashes, timeouts, cancels, execCount, 
                          cancelOK, hit, userDone, fop, ut, fobj, item >>
 
 mrun == /\ pc["M"] = "mrun"
@@ -733,9 +779,9 @@ mrun == /\ pc["M"] = "mrun"
                         globalExit, workIds, running, sem, buf, pipe, cqClosed, 
                         rdClosed, rq, wkClosed, procs, alive, holding, 
                         exitLock, announced, rlock, wlock, mgmt, shut, 
-                        mgrStarted, mgr, watch, ready, msg, cur, nStop, nSent, 
-                        crashes, timeouts, cancels, execCount, cancelOK, hit, 
-                        userDone, fop, ut, fobj, item >>
+                        mgrStarted, mgr, unew, mnew, watch, ready, msg, cur, 
+                        nStop, nSent, crashes, timeouts, cancels, execCount, 
+                        cancelOK, hit, userDone, fop, ut, fobj, item >>
 
 mradd == /\ pc["M"] = "mradd"
          /\ running' = (running \cup {cur})
@@ -744,9 +790,10 @@ mradd == /\ pc["M"] = "mradd"
                          globalExit, pending, fut, workIds, sem, buf, pipe, 
                          cqClosed, rdClosed, rq, wake, wkClosed, procs, alive, 
                          holding, exitLock, announced, rlock, wlock, mgmt, 
-                         shut, mgrStarted, mgr, watch, ready, msg, cur, nStop, 
-                         nSent, crashes, timeouts, cancels, execCount, 
-                         cancelOK, hit, userDone, fop, ut, fobj, item >>
+                         shut, mgrStarted, mgr, unew, mnew, watch, ready, msg, 
+                         cur, nStop, nSent, crashes, timeouts, cancels, 
+                         execCount, cancelOK, hit, userDone, fop, ut, fobj, 
+                         item >>
 
 mput == /\ pc["M"] = "mput"
         /\ sem > 0
@@ -757,9 +804,9 @@ mput == /\ pc["M"] = "mput"
                         globalExit, pending, fut, workIds, running, pipe, 
                         cqClosed, rdClosed, rq, wake, wkClosed, procs, alive, 
                         holding, exitLock, announced, rlock, wlock, mgmt, shut, 
-                        mgrStarted, mgr, watch, ready, msg, cur, nStop, nSent, 
-                        crashes, timeouts, cancels, execCount, cancelOK, hit, 
-                        userDone, fop, ut, fobj, item >>
+                        mgrStarted, mgr, unew, mnew, watch, ready, msg, cur, 
+                        nStop, nSent, crashes, timeouts, cancels, execCount, 
+                        cancelOK, hit, userDone, fop, ut, fobj, item >>
 
 msnap == /\ pc["M"] = "msnap"
          /\ watch' = procs
@@ -768,9 +815,10 @@ msnap == /\ pc["M"] = "msnap"
                          globalExit, pending, fut, workIds, running, sem, buf, 
                          pipe, cqClosed, rdClosed, rq, wake, wkClosed, procs, 
                          alive, holding, exitLock, announced, rlock, wlock, 
-                         mgmt, shut, mgrStarted, mgr, ready, msg, cur, nStop, 
-                         nSent, crashes, timeouts, cancels, execCount, 
-                         cancelOK, hit, userDone, fop, ut, fobj, item >>
+                         mgmt, shut, mgrStarted, mgr, unew, mnew, ready, msg, 
+                         cur, nStop, nSent, crashes, timeouts, cancels, 
+                         execCount, cancelOK, hit, userDone, fop, ut, fobj, 
+                         item >>
 
 mwait == /\ pc["M"] = "mwait"
          /\ rq # <<>> \/ wake > 0 \/ (\E p \in watch : Dead(p))
@@ -784,9 +832,10 @@ mwait == /\ pc["M"] = "mwait"
                          globalExit, pending, fut, workIds, running, sem, buf, 
                          pipe, cqClosed, rdClosed, rq, wake, wkClosed, procs, 
                          alive, holding, exitLock, announced, rlock, wlock, 
-                         mgmt, shut, mgrStarted, mgr, watch, msg, cur, nStop, 
-                         nSent, crashes, timeouts, cancels, execCount, 
-                         cancelOK, hit, userDone, fop, ut, fobj, item >>
+                         mgmt, shut, mgrStarted, mgr, unew, mnew, watch, msg, 
+                         cur, nStop, nSent, crashes, timeouts, cancels, 
+                         execCount, cancelOK, hit, userDone, fop, ut, fobj, 
+                         item >>
 
 mrecv == /\ pc["M"] = "mrecv"
          /\ IF ready = "res"
@@ -802,9 +851,10 @@ mrecv == /\ pc["M"] = "mrecv"
                          globalExit, pending, fut, workIds, running, sem, buf, 
                          pipe, cqClosed, rdClosed, wake, wkClosed, procs, 
                          alive, holding, exitLock, announced, rlock, wlock, 
-                         mgmt, shut, mgrStarted, mgr, watch, ready, cur, nStop, 
-                         nSent, crashes, timeouts, cancels, execCount, 
-                         cancelOK, hit, userDone, fop, ut, fobj, item >>
+                         mgmt, shut, mgrStarted, mgr, unew, mnew, watch, ready, 
+                         cur, nStop, nSent, crashes, timeouts, cancels, 
+                         execCount, cancelOK, hit, userDone, fop, ut, fobj, 
+                         item >>
 
 mclear == /\ pc["M"] = "mclear"
           /\ wake' = 0
@@ -813,9 +863,10 @@ mclear == /\ pc["M"] = "mclear"
                           globalExit, pending, fut, workIds, running, sem, buf, 
                           pipe, cqClosed, rdClosed, rq, wkClosed, procs, alive, 
                           holding, exitLock, announced, rlock, wlock, mgmt, 
-                          shut, mgrStarted, mgr, watch, ready, msg, cur, nStop, 
-                          nSent, crashes, timeouts, cancels, execCount, 
-                          cancelOK, hit, userDone, fop, ut, fobj, item >>
+                          shut, mgrStarted, mgr, unew, mnew, watch, ready, msg, 
+                          cur, nStop, nSent, crashes, timeouts, cancels, 
+                          execCount, cancelOK, hit, userDone, fop, ut, fobj, 
+                          item >>
 
 mp == /\ pc["M"] = "mp"
       /\ IF msg[1] \in {"broken", "tb"}
@@ -829,9 +880,9 @@ mp == /\ pc["M"] = "mp"
                       globalExit, pending, fut, workIds, running, sem, buf, 
                       pipe, cqClosed, rdClosed, rq, wake, wkClosed, procs, 
                       alive, holding, exitLock, announced, rlock, wlock, mgmt, 
-                      shut, mgrStarted, mgr, watch, ready, msg, cur, nStop, 
-                      nSent, crashes, timeouts, cancels, execCount, cancelOK, 
-                      hit, userDone, fop, ut, fobj, item >>
+                      shut, mgrStarted, mgr, unew, mnew, watch, ready, msg, 
+                      cur, nStop, nSent, crashes, timeouts, cancels, execCount, 
+                      cancelOK, hit, userDone, fop, ut, fobj, item >>
 
 mbflag == /\ pc["M"] = "mbflag"
           /\ shut = "free"
@@ -842,8 +893,8 @@ mbflag == /\ pc["M"] = "mbflag"
                           fut, workIds, running, sem, buf, pipe, cqClosed, 
                           rdClosed, rq, wake, wkClosed, procs, alive, holding, 
                           exitLock, announced, rlock, wlock, mgmt, shut, 
-                          mgrStarted, mgr, watch, ready, msg, cur, nStop, 
-                          nSent, crashes, timeouts, cancels, execCount, 
+                          mgrStarted, mgr, unew, mnew, watch, ready, msg, cur, 
+                          nStop, nSent, crashes, timeouts, cancels, execCount, 
                           cancelOK, hit, userDone, fop, ut, fobj, item >>
 
 mbfail == /\ pc["M"] = "mbfail"
@@ -863,8 +914,8 @@ mbfail == /\ pc["M"] = "mbfail"
                           globalExit, workIds, running, sem, buf, pipe, 
                           cqClosed, rdClosed, rq, wake, wkClosed, procs, alive, 
                           holding, exitLock, announced, rlock, wlock, mgmt, 
-                          shut, mgrStarted, watch, ready, msg, cur, nStop, 
-                          nSent, crashes, timeouts, cancels, execCount, 
+                          shut, mgrStarted, unew, mnew, watch, ready, msg, cur, 
+                          nStop, nSent, crashes, timeouts, cancels, execCount, 
                           cancelOK, hit, userDone, fop, ut, fobj, item >>
 
 mbkill == /\ pc["M"] = "mbkill"
@@ -888,8 +939,8 @@ mbkill == /\ pc["M"] = "mbkill"
                           globalExit, pending, fut, workIds, running, sem, buf, 
                           pipe, cqClosed, rq, wake, wkClosed, holding, 
                           exitLock, announced, rlock, wlock, mgmt, shut, 
-                          mgrStarted, mgr, watch, ready, msg, cur, nStop, 
-                          nSent, crashes, timeouts, cancels, execCount, 
+                          mgrStarted, mgr, unew, mnew, watch, ready, msg, cur, 
+                          nStop, nSent, crashes, timeouts, cancels, execCount, 
                           cancelOK, userDone, fop, ut, fobj, item >>
 
 mres == /\ pc["M"] = "mres"
@@ -903,9 +954,9 @@ mres == /\ pc["M"] = "mres"
                         globalExit, workIds, running, sem, buf, pipe, cqClosed, 
                         rdClosed, rq, wake, wkClosed, procs, alive, holding, 
                         exitLock, announced, rlock, wlock, mgmt, shut, 
-                        mgrStarted, mgr, watch, ready, msg, cur, nStop, nSent, 
-                        crashes, timeouts, cancels, execCount, cancelOK, hit, 
-                        userDone, fop, ut, fobj, item >>
+                        mgrStarted, mgr, unew, mnew, watch, ready, msg, cur, 
+                        nStop, nSent, crashes, timeouts, cancels, execCount, 
+                        cancelOK, hit, userDone, fop, ut, fobj, item >>
 
 mrunrm == /\ pc["M"] = "mrunrm"
           /\ running' = running \ {msg[2]}
@@ -914,9 +965,10 @@ mrunrm == /\ pc["M"] = "mrunrm"
                           globalExit, pending, fut, workIds, sem, buf, pipe, 
                           cqClosed, rdClosed, rq, wake, wkClosed, procs, alive, 
                           holding, exitLock, announced, rlock, wlock, mgmt, 
-                          shut, mgrStarted, mgr, watch, ready, msg, cur, nStop, 
-                          nSent, crashes, timeouts, cancels, execCount, 
-                          cancelOK, hit, userDone, fop, ut, fobj, item >>
+                          shut, mgrStarted, mgr, unew, mnew, watch, ready, msg, 
+                          cur, nStop, nSent, crashes, timeouts, cancels, 
+                          execCount, cancelOK, hit, userDone, fop, ut, fobj, 
+                          item >>
 
 mpop == /\ pc["M"] = "mpop"
         /\ mgmt = "free"
@@ -926,9 +978,9 @@ mpop == /\ pc["M"] = "mpop"
                         globalExit, pending, fut, workIds, running, sem, buf, 
                         pipe, cqClosed, rdClosed, rq, wake, wkClosed, alive, 
                         holding, exitLock, announced, rlock, wlock, mgmt, shut, 
-                        mgrStarted, mgr, watch, ready, msg, cur, nStop, nSent, 
-                        crashes, timeouts, cancels, execCount, cancelOK, hit, 
-                        userDone, fop, ut, fobj, item >>
+                        mgrStarted, mgr, unew, mnew, watch, ready, msg, cur, 
+                        nStop, nSent, crashes, timeouts, cancels, execCount, 
+                        cancelOK, hit, userDone, fop, ut, fobj, item >>
 
 mrel == /\ pc["M"] = "mrel"
         /\ exitLock' = [exitLock EXCEPT ![msg[2]] = 1]
@@ -937,9 +989,9 @@ mrel == /\ pc["M"] = "mrel"
                         globalExit, pending, fut, workIds, running, sem, buf, 
                         pipe, cqClosed, rdClosed, rq, wake, wkClosed, procs, 
                         alive, holding, announced, rlock, wlock, mgmt, shut, 
-                        mgrStarted, mgr, watch, ready, msg, cur, nStop, nSent, 
-                        crashes, timeouts, cancels, execCount, cancelOK, hit, 
-                        userDone, fop, ut, fobj, item >>
+                        mgrStarted, mgr, unew, mnew, watch, ready, msg, cur, 
+                        nStop, nSent, crashes, timeouts, cancels, execCount, 
+                        cancelOK, hit, userDone, fop, ut, fobj, item >>
 
 mjoin == /\ pc["M"] = "mjoin"
          /\ Dead(msg[2])
@@ -948,9 +1000,10 @@ mjoin == /\ pc["M"] = "mjoin"
                          globalExit, pending, fut, workIds, running, sem, buf, 
                          pipe, cqClosed, rdClosed, rq, wake, wkClosed, procs, 
                          alive, holding, exitLock, announced, rlock, wlock, 
-                         mgmt, shut, mgrStarted, mgr, watch, ready, msg, cur, 
-                         nStop, nSent, crashes, timeouts, cancels, execCount, 
-                         cancelOK, hit, userDone, fop, ut, fobj, item >>
+                         mgmt, shut, mgrStarted, mgr, unew, mnew, watch, ready, 
+                         msg, cur, nStop, nSent, crashes, timeouts, cancels, 
+                         execCount, cancelOK, hit, userDone, fop, ut, fobj, 
+                         item >>
 
 mdecide == /\ pc["M"] = "mdecide"
            /\ IF (Cardinality(pending) > Cardinality(running) \/ Cardinality(running) > Cardinality(procs))
@@ -973,9 +1026,10 @@ mdecide == /\ pc["M"] = "mdecide"
                            globalExit, pending, fut, workIds, running, sem, 
                            buf, pipe, cqClosed, rdClosed, rq, wake, wkClosed, 
                            procs, alive, holding, exitLock, announced, rlock, 
-                           wlock, mgmt, shut, mgrStarted, watch, ready, msg, 
-                           cur, nStop, nSent, crashes, timeouts, cancels, 
-                           execCount, cancelOK, userDone, fop, ut, fobj, item >>
+                           wlock, mgmt, shut, mgrStarted, unew, mnew, watch, 
+                           ready, msg, cur, nStop, nSent, crashes, timeouts, 
+                           cancels, execCount, cancelOK, userDone, fop, ut, 
+                           fobj, item >>
 
 mrlock == /\ pc["M"] = "mrlock"
           /\ mgmt = "free"
@@ -985,25 +1039,39 @@ mrlock == /\ pc["M"] = "mrlock"
                           globalExit, pending, fut, workIds, running, sem, buf, 
                           pipe, cqClosed, rdClosed, rq, wake, wkClosed, procs, 
                           alive, holding, exitLock, announced, rlock, wlock, 
-                          shut, mgrStarted, mgr, watch, ready, msg, cur, nStop, 
-                          nSent, crashes, timeouts, cancels, execCount, 
-                          cancelOK, hit, userDone, fop, ut, fobj, item >>
+                          shut, mgrStarted, mgr, unew, mnew, watch, ready, msg, 
+                          cur, nStop, nSent, crashes, timeouts, cancels, 
+                          execCount, cancelOK, hit, userDone, fop, ut, fobj, 
+                          item >>
 
 mrspawn == /\ pc["M"] = "mrspawn"
            /\ IF NeedSpawn
                  THEN /\ \E p \in Fresh:
-                           /\ procs' = (procs \cup {p})
                            /\ alive' = [alive EXCEPT ![p] = "alive"]
-                      /\ pc' = [pc EXCEPT !["M"] = "mrspawn"]
+                           /\ mnew' = p
+                      /\ pc' = [pc EXCEPT !["M"] = "mrreg"]
                  ELSE /\ pc' = [pc EXCEPT !["M"] = "mrunlock"]
-                      /\ UNCHANGED << procs, alive >>
+                      /\ UNCHANGED << alive, mnew >>
            /\ UNCHANGED << shutdownF, brokenF, killF, execAlive, refsDropped, 
                            globalExit, pending, fut, workIds, running, sem, 
                            buf, pipe, cqClosed, rdClosed, rq, wake, wkClosed, 
-                           holding, exitLock, announced, rlock, wlock, mgmt, 
-                           shut, mgrStarted, mgr, watch, ready, msg, cur, 
-                           nStop, nSent, crashes, timeouts, cancels, execCount, 
-                           cancelOK, hit, userDone, fop, ut, fobj, item >>
+                           procs, holding, exitLock, announced, rlock, wlock, 
+                           mgmt, shut, mgrStarted, mgr, unew, watch, ready, 
+                           msg, cur, nStop, nSent, crashes, timeouts, cancels, 
+                           execCount, cancelOK, hit, userDone, fop, ut, fobj, 
+                           item >>
+
+mrreg == /\ pc["M"] = "mrreg"
+         /\ procs' = (procs \cup {mnew})
+         /\ pc' = [pc EXCEPT !["M"] = "mrspawn"]
+         /\ UNCHANGED << shutdownF, brokenF, killF, execAlive, refsDropped, 
+                         globalExit, pending, fut, workIds, running, sem, buf, 
+                         pipe, cqClosed, rdClosed, rq, wake, wkClosed, alive, 
+                         holding, exitLock, announced, rlock, wlock, mgmt, 
+                         shut, mgrStarted, mgr, unew, mnew, watch, ready, msg, 
+                         cur, nStop, nSent, crashes, timeouts, cancels, 
+                         execCount, cancelOK, hit, userDone, fop, ut, fobj, 
+                         item >>
 
 mrunlock == /\ pc["M"] = "mrunlock"
             /\ mgmt' = "free"
@@ -1012,10 +1080,10 @@ mrunlock == /\ pc["M"] = "mrunlock"
                             globalExit, pending, fut, workIds, running, sem, 
                             buf, pipe, cqClosed, rdClosed, rq, wake, wkClosed, 
                             procs, alive, holding, exitLock, announced, rlock, 
-                            wlock, shut, mgrStarted, mgr, watch, ready, msg, 
-                            cur, nStop, nSent, crashes, timeouts, cancels, 
-                            execCount, cancelOK, hit, userDone, fop, ut, fobj, 
-                            item >>
+                            wlock, shut, mgrStarted, mgr, unew, mnew, watch, 
+                            ready, msg, cur, nStop, nSent, crashes, timeouts, 
+                            cancels, execCount, cancelOK, hit, userDone, fop, 
+                            ut, fobj, item >>
 
 msd == /\ pc["M"] = "msd"
        /\ IF ShuttingDown
@@ -1025,9 +1093,9 @@ msd == /\ pc["M"] = "msd"
                        globalExit, pending, fut, workIds, running, sem, buf, 
                        pipe, cqClosed, rdClosed, rq, wake, wkClosed, procs, 
                        alive, holding, exitLock, announced, rlock, wlock, mgmt, 
-                       shut, mgrStarted, mgr, watch, ready, msg, cur, nStop, 
-                       nSent, crashes, timeouts, cancels, execCount, cancelOK, 
-                       hit, userDone, fop, ut, fobj, item >>
+                       shut, mgrStarted, mgr, unew, mnew, watch, ready, msg, 
+                       cur, nStop, nSent, crashes, timeouts, cancels, 
+                       execCount, cancelOK, hit, userDone, fop, ut, fobj, item >>
 
 msflag == /\ pc["M"] = "msflag"
           /\ shut = "free"
@@ -1037,9 +1105,10 @@ msflag == /\ pc["M"] = "msflag"
                           pending, fut, workIds, running, sem, buf, pipe, 
                           cqClosed, rdClosed, rq, wake, wkClosed, procs, alive, 
                           holding, exitLock, announced, rlock, wlock, mgmt, 
-                          shut, mgrStarted, mgr, watch, ready, msg, cur, nStop, 
-                          nSent, crashes, timeouts, cancels, execCount, 
-                          cancelOK, hit, userDone, fop, ut, fobj, item >>
+                          shut, mgrStarted, mgr, unew, mnew, watch, ready, msg, 
+                          cur, nStop, nSent, crashes, timeouts, cancels, 
+                          execCount, cancelOK, hit, userDone, fop, ut, fobj, 
+                          item >>
 
 mkill == /\ pc["M"] = "mkill"
          /\ IF killF
@@ -1049,9 +1118,10 @@ mkill == /\ pc["M"] = "mkill"
                          globalExit, pending, fut, workIds, running, sem, buf, 
                          pipe, cqClosed, rdClosed, rq, wake, wkClosed, procs, 
                          alive, holding, exitLock, announced, rlock, wlock, 
-                         mgmt, shut, mgrStarted, mgr, watch, ready, msg, cur, 
-                         nStop, nSent, crashes, timeouts, cancels, execCount, 
-                         cancelOK, hit, userDone, fop, ut, fobj, item >>
+                         mgmt, shut, mgrStarted, mgr, unew, mnew, watch, ready, 
+                         msg, cur, nStop, nSent, crashes, timeouts, cancels, 
+                         execCount, cancelOK, hit, userDone, fop, ut, fobj, 
+                         item >>
 
 mkfail == /\ pc["M"] = "mkfail"
           /\ IF pending # {}
@@ -1070,8 +1140,8 @@ mkfail == /\ pc["M"] = "mkfail"
                           globalExit, workIds, running, sem, buf, pipe, 
                           cqClosed, rdClosed, rq, wake, wkClosed, procs, alive, 
                           holding, exitLock, announced, rlock, wlock, mgmt, 
-                          shut, mgrStarted, watch, ready, msg, cur, nStop, 
-                          nSent, crashes, timeouts, cancels, execCount, 
+                          shut, mgrStarted, unew, mnew, watch, ready, msg, cur, 
+                          nStop, nSent, crashes, timeouts, cancels, execCount, 
                           cancelOK, hit, userDone, fop, ut, fobj, item >>
 
 mkkill == /\ pc["M"] = "mkkill"
@@ -1095,8 +1165,8 @@ mkkill == /\ pc["M"] = "mkkill"
                           globalExit, pending, fut, workIds, running, sem, buf, 
                           pipe, cqClosed, rq, wake, wkClosed, holding, 
                           exitLock, announced, rlock, wlock, mgmt, shut, 
-                          mgrStarted, mgr, watch, ready, msg, cur, nStop, 
-                          nSent, crashes, timeouts, cancels, execCount, 
+                          mgrStarted, mgr, unew, mnew, watch, ready, msg, cur, 
+                          nStop, nSent, crashes, timeouts, cancels, execCount, 
                           cancelOK, userDone, fop, ut, fobj, item >>
 
 mspend == /\ pc["M"] = "mspend"
@@ -1107,9 +1177,10 @@ mspend == /\ pc["M"] = "mspend"
                           globalExit, pending, fut, workIds, running, sem, buf, 
                           pipe, cqClosed, rdClosed, rq, wake, wkClosed, procs, 
                           alive, holding, exitLock, announced, rlock, wlock, 
-                          mgmt, shut, mgrStarted, mgr, watch, ready, msg, cur, 
-                          nStop, nSent, crashes, timeouts, cancels, execCount, 
-                          cancelOK, hit, userDone, fop, ut, fobj, item >>
+                          mgmt, shut, mgrStarted, mgr, unew, mnew, watch, 
+                          ready, msg, cur, nStop, nSent, crashes, timeouts, 
+                          cancels, execCount, cancelOK, hit, userDone, fop, ut, 
+                          fobj, item >>
 
 mj1 == /\ pc["M"] = "mj1"
        /\ mgmt = "free"
@@ -1121,9 +1192,9 @@ mj1 == /\ pc["M"] = "mj1"
                        globalExit, pending, fut, workIds, running, sem, buf, 
                        pipe, cqClosed, rdClosed, rq, wake, wkClosed, procs, 
                        alive, holding, announced, rlock, wlock, mgmt, shut, 
-                       mgrStarted, mgr, watch, ready, msg, cur, crashes, 
-                       timeouts, cancels, execCount, cancelOK, hit, userDone, 
-                       fop, ut, fobj, item >>
+                       mgrStarted, mgr, unew, mnew, watch, ready, msg, cur, 
+                       crashes, timeouts, cancels, execCount, cancelOK, hit, 
+                       userDone, fop, ut, fobj, item >>
 
 mj2 == /\ pc["M"] = "mj2"
        /\ IF nSent < nStop /\ (\E p \in procs : ~Dead(p))
@@ -1141,9 +1212,9 @@ mj2 == /\ pc["M"] = "mj2"
                        globalExit, pending, fut, workIds, running, pipe, 
                        cqClosed, rdClosed, rq, wake, wkClosed, procs, alive, 
                        holding, exitLock, announced, rlock, wlock, mgmt, shut, 
-                       mgrStarted, mgr, watch, ready, msg, cur, nStop, crashes, 
-                       timeouts, cancels, execCount, cancelOK, hit, userDone, 
-                       fop, ut, fobj, item >>
+                       mgrStarted, mgr, unew, mnew, watch, ready, msg, cur, 
+                       nStop, crashes, timeouts, cancels, execCount, cancelOK, 
+                       hit, userDone, fop, ut, fobj, item >>
 
 mj3 == /\ pc["M"] = "mj3"
        /\ cqClosed' = TRUE
@@ -1152,9 +1223,9 @@ mj3 == /\ pc["M"] = "mj3"
                        globalExit, pending, fut, workIds, running, sem, buf, 
                        pipe, rdClosed, rq, wake, wkClosed, procs, alive, 
                        holding, exitLock, announced, rlock, wlock, mgmt, shut, 
-                       mgrStarted, mgr, watch, ready, msg, cur, nStop, nSent, 
-                       crashes, timeouts, cancels, execCount, cancelOK, hit, 
-                       userDone, fop, ut, fobj, item >>
+                       mgrStarted, mgr, unew, mnew, watch, ready, msg, cur, 
+                       nStop, nSent, crashes, timeouts, cancels, execCount, 
+                       cancelOK, hit, userDone, fop, ut, fobj, item >>
 
 mj4 == /\ pc["M"] = "mj4"
        /\ shut = "free"
@@ -1164,9 +1235,9 @@ mj4 == /\ pc["M"] = "mj4"
                        globalExit, pending, fut, workIds, running, sem, buf, 
                        pipe, cqClosed, rdClosed, rq, wake, procs, alive, 
                        holding, exitLock, announced, rlock, wlock, mgmt, shut, 
-                       mgrStarted, mgr, watch, ready, msg, cur, nStop, nSent, 
-                       crashes, timeouts, cancels, execCount, cancelOK, hit, 
-                       userDone, fop, ut, fobj, item >>
+                       mgrStarted, mgr, unew, mnew, watch, ready, msg, cur, 
+                       nStop, nSent, crashes, timeouts, cancels, execCount, 
+                       cancelOK, hit, userDone, fop, ut, fobj, item >>
 
 mj5l == /\ pc["M"] = "mj5l"
         /\ mgmt = "free"
@@ -1176,37 +1247,57 @@ mj5l == /\ pc["M"] = "mj5l"
                         globalExit, pending, fut, workIds, running, sem, buf, 
                         pipe, cqClosed, rdClosed, rq, wake, wkClosed, procs, 
                         alive, holding, exitLock, announced, rlock, wlock, 
-                        shut, mgrStarted, mgr, watch, ready, msg, cur, nStop, 
-                        nSent, crashes, timeouts, cancels, execCount, cancelOK, 
-                        hit, userDone, fop, ut, fobj, item >>
+                        shut, mgrStarted, mgr, unew, mnew, watch, ready, msg, 
+                        cur, nStop, nSent, crashes, timeouts, cancels, 
+                        execCount, cancelOK, hit, userDone, fop, ut, fobj, 
+                        item >>
 
 mj5 == /\ pc["M"] = "mj5"
        /\ IF procs # {}
              THEN /\ IF JoinWatches
                         THEN /\ \E p \in procs : Dead(p)
                              /\ \E p \in {q \in procs : Dead(q)}:
-                                  IF alive[p] = "dead"
-                                     THEN /\ alive' = [q \in Pids |-> IF q \in procs /\ Alive(q) THEN "dead" ELSE alive[q]]
-                                          /\ procs' = {}
-                                     ELSE /\ procs' = procs \ {p}
-                                          /\ alive' = alive
+                                  /\ procs' = procs \ {p}
+                                  /\ IF alive[p] = "dead"
+                                        THEN /\ pc' = [pc EXCEPT !["M"] = "mj5k"]
+                                        ELSE /\ pc' = [pc EXCEPT !["M"] = "mj5"]
                         ELSE /\ \E p \in procs:
                                   /\ Dead(p) \/ (\A q \in procs : ~Dead(q))
                                   /\ IF ~Dead(p)
                                         THEN /\ FALSE
                                              /\ procs' = procs
                                         ELSE /\ procs' = procs \ {p}
-                             /\ alive' = alive
-                  /\ pc' = [pc EXCEPT !["M"] = "mj5"]
+                             /\ pc' = [pc EXCEPT !["M"] = "mj5"]
              ELSE /\ pc' = [pc EXCEPT !["M"] = "mj6"]
-                  /\ UNCHANGED << procs, alive >>
+                  /\ procs' = procs
        /\ UNCHANGED << shutdownF, brokenF, killF, execAlive, refsDropped, 
                        globalExit, pending, fut, workIds, running, sem, buf, 
-                       pipe, cqClosed, rdClosed, rq, wake, wkClosed, holding, 
-                       exitLock, announced, rlock, wlock, mgmt, shut, 
-                       mgrStarted, mgr, watch, ready, msg, cur, nStop, nSent, 
-                       crashes, timeouts, cancels, execCount, cancelOK, hit, 
-                       userDone, fop, ut, fobj, item >>
+                       pipe, cqClosed, rdClosed, rq, wake, wkClosed, alive, 
+                       holding, exitLock, announced, rlock, wlock, mgmt, shut, 
+                       mgrStarted, mgr, unew, mnew, watch, ready, msg, cur, 
+                       nStop, nSent, crashes, timeouts, cancels, execCount, 
+                       cancelOK, hit, userDone, fop, ut, fobj, item >>
+
+mj5k == /\ pc["M"] = "mj5k"
+        /\ IF procs # {}
+              THEN /\ \E p \in procs:
+                        /\ alive' = [alive EXCEPT ![p] = IF Dead(p) THEN alive[p] ELSE "dead"]
+                        /\ procs' = procs \ {p}
+                   /\ pc' = [pc EXCEPT !["M"] = "mj5k"]
+                   /\ UNCHANGED rdClosed
+              ELSE /\ IF CloseReaderOnKill
+                         THEN /\ rdClosed' = TRUE
+                         ELSE /\ TRUE
+                              /\ UNCHANGED rdClosed
+                   /\ pc' = [pc EXCEPT !["M"] = "mj6"]
+                   /\ UNCHANGED << procs, alive >>
+        /\ UNCHANGED << shutdownF, brokenF, killF, execAlive, refsDropped, 
+                        globalExit, pending, fut, workIds, running, sem, buf, 
+                        pipe, cqClosed, rq, wake, wkClosed, holding, exitLock, 
+                        announced, rlock, wlock, mgmt, shut, mgrStarted, mgr, 
+                        unew, mnew, watch, ready, msg, cur, nStop, nSent, 
+                        crashes, timeouts, cancels, execCount, cancelOK, hit, 
+                        userDone, fop, ut, fobj, item >>
 
 mj6 == /\ pc["M"] = "mj6"
        /\ mgmt' = "free"
@@ -1216,9 +1307,9 @@ mj6 == /\ pc["M"] = "mj6"
                        globalExit, pending, fut, workIds, running, sem, buf, 
                        pipe, cqClosed, rdClosed, rq, wake, wkClosed, procs, 
                        alive, holding, exitLock, announced, rlock, wlock, shut, 
-                       mgrStarted, watch, ready, msg, cur, nStop, nSent, 
-                       crashes, timeouts, cancels, execCount, cancelOK, hit, 
-                       userDone, fop, ut, fobj, item >>
+                       mgrStarted, unew, mnew, watch, ready, msg, cur, nStop, 
+                       nSent, crashes, timeouts, cancels, execCount, cancelOK, 
+                       hit, userDone, fop, ut, fobj, item >>
 
 mdone == /\ pc["M"] = "mdone"
          /\ TRUE
@@ -1227,16 +1318,17 @@ mdone == /\ pc["M"] = "mdone"
                          globalExit, pending, fut, workIds, running, sem, buf, 
                          pipe, cqClosed, rdClosed, rq, wake, wkClosed, procs, 
                          alive, holding, exitLock, announced, rlock, wlock, 
-                         mgmt, shut, mgrStarted, mgr, watch, ready, msg, cur, 
-                         nStop, nSent, crashes, timeouts, cancels, execCount, 
-                         cancelOK, hit, userDone, fop, ut, fobj, item >>
+                         mgmt, shut, mgrStarted, mgr, unew, mnew, watch, ready, 
+                         msg, cur, nStop, nSent, crashes, timeouts, cancels, 
+                         execCount, cancelOK, hit, userDone, fop, ut, fobj, 
+                         item >>
 
 manager == m0 \/ mloop \/ mfull \/ mtake \/ mrun \/ mradd \/ mput \/ msnap
               \/ mwait \/ mrecv \/ mclear \/ mp \/ mbflag \/ mbfail
               \/ mbkill \/ mres \/ mrunrm \/ mpop \/ mrel \/ mjoin
-              \/ mdecide \/ mrlock \/ mrspawn \/ mrunlock \/ msd \/ msflag
-              \/ mkill \/ mkfail \/ mkkill \/ mspend \/ mj1 \/ mj2 \/ mj3
-              \/ mj4 \/ mj5l \/ mj5 \/ mj6 \/ mdone
+              \/ mdecide \/ mrlock \/ mrspawn \/ mrreg \/ mrunlock \/ msd
+              \/ msflag \/ mkill \/ mkfail \/ mkkill \/ mspend \/ mj1
+              \/ mj2 \/ mj3 \/ mj4 \/ mj5l \/ mj5 \/ mj5k \/ mj6 \/ mdone
 
 f0 == /\ pc["F"] = "f0"
       /\ pc' = [pc EXCEPT !["F"] = "ftake"]
@@ -1244,9 +1336,9 @@ f0 == /\ pc["F"] = "f0"
                       globalExit, pending, fut, workIds, running, sem, buf, 
                       pipe, cqClosed, rdClosed, rq, wake, wkClosed, procs, 
                       alive, holding, exitLock, announced, rlock, wlock, mgmt, 
-                      shut, mgrStarted, mgr, watch, ready, msg, cur, nStop, 
-                      nSent, crashes, timeouts, cancels, execCount, cancelOK, 
-                      hit, userDone, fop, ut, fobj, item >>
+                      shut, mgrStarted, mgr, unew, mnew, watch, ready, msg, 
+                      cur, nStop, nSent, crashes, timeouts, cancels, execCount, 
+                      cancelOK, hit, userDone, fop, ut, fobj, item >>
 
 ftake == /\ pc["F"] = "ftake"
          /\ buf # <<>>
@@ -1257,9 +1349,9 @@ ftake == /\ pc["F"] = "ftake"
                          globalExit, pending, fut, workIds, running, sem, pipe, 
                          cqClosed, rdClosed, rq, wake, wkClosed, procs, alive, 
                          holding, exitLock, announced, rlock, wlock, mgmt, 
-                         shut, mgrStarted, mgr, watch, ready, msg, cur, nStop, 
-                         nSent, crashes, timeouts, cancels, execCount, 
-                         cancelOK, hit, userDone, fop, ut, item >>
+                         shut, mgrStarted, mgr, unew, mnew, watch, ready, msg, 
+                         cur, nStop, nSent, crashes, timeouts, cancels, 
+                         execCount, cancelOK, hit, userDone, fop, ut, item >>
 
 fsend == /\ pc["F"] = "fsend"
          /\ IF fobj # Sentinel /\ Kind[fobj] = "bad_arg"
@@ -1276,9 +1368,10 @@ fsend == /\ pc["F"] = "fsend"
                          globalExit, pending, fut, workIds, running, buf, 
                          cqClosed, rdClosed, rq, wake, wkClosed, procs, alive, 
                          holding, exitLock, announced, rlock, wlock, mgmt, 
-                         shut, mgrStarted, mgr, watch, ready, msg, cur, nStop, 
-                         nSent, crashes, timeouts, cancels, execCount, 
-                         cancelOK, hit, userDone, fop, ut, fobj, item >>
+                         shut, mgrStarted, mgr, unew, mnew, watch, ready, msg, 
+                         cur, nStop, nSent, crashes, timeouts, cancels, 
+                         execCount, cancelOK, hit, userDone, fop, ut, fobj, 
+                         item >>
 
 fhuge == /\ pc["F"] = "fhuge"
          /\ (pipe = <<>> /\ \E p \in Pids : Alive(p) /\ pc[p] = "wpoll") \/ (rdClosed /\ \A p \in Pids : ~Alive(p))
@@ -1293,9 +1386,10 @@ fhuge == /\ pc["F"] = "fhuge"
                          globalExit, pending, fut, workIds, running, buf, 
                          cqClosed, rdClosed, rq, wake, wkClosed, procs, alive, 
                          holding, exitLock, announced, rlock, wlock, mgmt, 
-                         shut, mgrStarted, mgr, watch, ready, msg, cur, nStop, 
-                         nSent, crashes, timeouts, cancels, execCount, 
-                         cancelOK, hit, userDone, fop, ut, fobj, item >>
+                         shut, mgrStarted, mgr, unew, mnew, watch, ready, msg, 
+                         cur, nStop, nSent, crashes, timeouts, cancels, 
+                         execCount, cancelOK, hit, userDone, fop, ut, fobj, 
+                         item >>
 
 ferrp == /\ pc["F"] = "ferrp"
          /\ IF fobj \in pending
@@ -1308,9 +1402,10 @@ ferrp == /\ pc["F"] = "ferrp"
                          globalExit, workIds, running, sem, buf, pipe, 
                          cqClosed, rdClosed, rq, wake, wkClosed, procs, alive, 
                          holding, exitLock, announced, rlock, wlock, mgmt, 
-                         shut, mgrStarted, mgr, watch, ready, msg, cur, nStop, 
-                         nSent, crashes, timeouts, cancels, execCount, 
-                         cancelOK, hit, userDone, fop, ut, fobj, item >>
+                         shut, mgrStarted, mgr, unew, mnew, watch, ready, msg, 
+                         cur, nStop, nSent, crashes, timeouts, cancels, 
+                         execCount, cancelOK, hit, userDone, fop, ut, fobj, 
+                         item >>
 
 ferrr == /\ pc["F"] = "ferrr"
          /\ running' = running \ {fobj}
@@ -1319,9 +1414,10 @@ ferrr == /\ pc["F"] = "ferrr"
                          globalExit, pending, fut, workIds, sem, buf, pipe, 
                          cqClosed, rdClosed, rq, wake, wkClosed, procs, alive, 
                          holding, exitLock, announced, rlock, wlock, mgmt, 
-                         shut, mgrStarted, mgr, watch, ready, msg, cur, nStop, 
-                         nSent, crashes, timeouts, cancels, execCount, 
-                         cancelOK, hit, userDone, fop, ut, fobj, item >>
+                         shut, mgrStarted, mgr, unew, mnew, watch, ready, msg, 
+                         cur, nStop, nSent, crashes, timeouts, cancels, 
+                         execCount, cancelOK, hit, userDone, fop, ut, fobj, 
+                         item >>
 
 ferrw == /\ pc["F"] = "ferrw"
          /\ shut = "free"
@@ -1334,9 +1430,10 @@ ferrw == /\ pc["F"] = "ferrw"
                          globalExit, pending, fut, workIds, running, sem, buf, 
                          pipe, cqClosed, rdClosed, rq, wkClosed, procs, alive, 
                          holding, exitLock, announced, rlock, wlock, mgmt, 
-                         shut, mgrStarted, mgr, watch, ready, msg, cur, nStop, 
-                         nSent, crashes, timeouts, cancels, execCount, 
-                         cancelOK, hit, userDone, fop, ut, fobj, item >>
+                         shut, mgrStarted, mgr, unew, mnew, watch, ready, msg, 
+                         cur, nStop, nSent, crashes, timeouts, cancels, 
+                         execCount, cancelOK, hit, userDone, fop, ut, fobj, 
+                         item >>
 
 feeder == f0 \/ ftake \/ fsend \/ fhuge \/ ferrp \/ ferrr \/ ferrw
 
@@ -1347,10 +1444,10 @@ w0(self) == /\ pc[self] = "w0"
                             globalExit, pending, fut, workIds, running, sem, 
                             buf, pipe, cqClosed, rdClosed, rq, wake, wkClosed, 
                             procs, alive, holding, exitLock, announced, rlock, 
-                            wlock, mgmt, shut, mgrStarted, mgr, watch, ready, 
-                            msg, cur, nStop, nSent, crashes, timeouts, cancels, 
-                            execCount, cancelOK, hit, userDone, fop, ut, fobj, 
-                            item >>
+                            wlock, mgmt, shut, mgrStarted, mgr, unew, mnew, 
+                            watch, ready, msg, cur, nStop, nSent, crashes, 
+                            timeouts, cancels, execCount, cancelOK, hit, 
+                            userDone, fop, ut, fobj, item >>
 
 winit(self) == /\ pc[self] = "winit"
                /\ Alive(self)
@@ -1364,9 +1461,9 @@ winit(self) == /\ pc[self] = "winit"
                                running, sem, buf, pipe, cqClosed, rdClosed, rq, 
                                wake, wkClosed, procs, holding, exitLock, 
                                announced, rlock, wlock, mgmt, shut, mgrStarted, 
-                               mgr, watch, ready, msg, cur, nStop, nSent, 
-                               crashes, timeouts, cancels, execCount, cancelOK, 
-                               hit, userDone, fop, ut, fobj, item >>
+                               mgr, unew, mnew, watch, ready, msg, cur, nStop, 
+                               nSent, crashes, timeouts, cancels, execCount, 
+                               cancelOK, hit, userDone, fop, ut, fobj, item >>
 
 wrl(self) == /\ pc[self] = "wrl"
              /\ Alive(self)
@@ -1382,9 +1479,10 @@ wrl(self) == /\ pc[self] = "wrl"
                              globalExit, pending, fut, workIds, running, sem, 
                              buf, pipe, cqClosed, rdClosed, rq, wake, wkClosed, 
                              procs, alive, holding, exitLock, announced, wlock, 
-                             mgmt, shut, mgrStarted, mgr, watch, ready, msg, 
-                             cur, nStop, nSent, crashes, cancels, execCount, 
-                             cancelOK, hit, userDone, fop, ut, fobj, item >>
+                             mgmt, shut, mgrStarted, mgr, unew, mnew, watch, 
+                             ready, msg, cur, nStop, nSent, crashes, cancels, 
+                             execCount, cancelOK, hit, userDone, fop, ut, fobj, 
+                             item >>
 
 wpoll(self) == /\ pc[self] = "wpoll"
                /\ Alive(self)
@@ -1399,9 +1497,9 @@ wpoll(self) == /\ pc[self] = "wpoll"
                                running, sem, buf, pipe, cqClosed, rdClosed, rq, 
                                wake, wkClosed, procs, alive, holding, exitLock, 
                                announced, rlock, wlock, mgmt, shut, mgrStarted, 
-                               mgr, watch, ready, msg, cur, nStop, nSent, 
-                               crashes, cancels, execCount, cancelOK, hit, 
-                               userDone, fop, ut, fobj, item >>
+                               mgr, unew, mnew, watch, ready, msg, cur, nStop, 
+                               nSent, crashes, cancels, execCount, cancelOK, 
+                               hit, userDone, fop, ut, fobj, item >>
 
 wrlt(self) == /\ pc[self] = "wrlt"
               /\ Alive(self)
@@ -1412,23 +1510,25 @@ wrlt(self) == /\ pc[self] = "wrlt"
                               running, sem, buf, pipe, cqClosed, rdClosed, rq, 
                               wake, wkClosed, procs, alive, holding, exitLock, 
                               announced, wlock, mgmt, shut, mgrStarted, mgr, 
-                              watch, ready, msg, cur, nStop, nSent, crashes, 
-                              timeouts, cancels, execCount, cancelOK, hit, 
-                              userDone, fop, ut, fobj, item >>
+                              unew, mnew, watch, ready, msg, cur, nStop, nSent, 
+                              crashes, timeouts, cancels, execCount, cancelOK, 
+                              hit, userDone, fop, ut, fobj, item >>
 
 wrecv(self) == /\ pc[self] = "wrecv"
                /\ Alive(self)
                /\ item' = [item EXCEPT ![self] = Head(pipe)]
                /\ pipe' = Tail(pipe)
-               /\ pc' = [pc EXCEPT ![self] = "wsem"]
+               /\ IF ~HasTimeout
+                     THEN /\ pc' = [pc EXCEPT ![self] = "wrlrel0"]
+                     ELSE /\ pc' = [pc EXCEPT ![self] = "wsem"]
                /\ UNCHANGED << shutdownF, brokenF, killF, execAlive, 
                                refsDropped, globalExit, pending, fut, workIds, 
                                running, sem, buf, cqClosed, rdClosed, rq, wake, 
                                wkClosed, procs, alive, holding, exitLock, 
                                announced, rlock, wlock, mgmt, shut, mgrStarted, 
-                               mgr, watch, ready, msg, cur, nStop, nSent, 
-                               crashes, timeouts, cancels, execCount, cancelOK, 
-                               hit, userDone, fop, ut, fobj >>
+                               mgr, unew, mnew, watch, ready, msg, cur, nStop, 
+                               nSent, crashes, timeouts, cancels, execCount, 
+                               cancelOK, hit, userDone, fop, ut, fobj >>
 
 wsem(self) == /\ pc[self] = "wsem"
               /\ Alive(self)
@@ -1439,9 +1539,9 @@ wsem(self) == /\ pc[self] = "wsem"
                               running, buf, pipe, cqClosed, rdClosed, rq, wake, 
                               wkClosed, procs, alive, holding, exitLock, 
                               announced, rlock, wlock, mgmt, shut, mgrStarted, 
-                              mgr, watch, ready, msg, cur, nStop, nSent, 
-                              crashes, timeouts, cancels, execCount, cancelOK, 
-                              hit, userDone, fop, ut, fobj, item >>
+                              mgr, unew, mnew, watch, ready, msg, cur, nStop, 
+                              nSent, crashes, timeouts, cancels, execCount, 
+                              cancelOK, hit, userDone, fop, ut, fobj, item >>
 
 wrlrel(self) == /\ pc[self] = "wrlrel"
                 /\ Alive(self)
@@ -1454,9 +1554,39 @@ wrlrel(self) == /\ pc[self] = "wrlrel"
                                 running, sem, buf, pipe, cqClosed, rdClosed, 
                                 rq, wake, wkClosed, procs, alive, holding, 
                                 exitLock, announced, wlock, mgmt, shut, 
-                                mgrStarted, mgr, watch, ready, msg, cur, nStop, 
-                                nSent, crashes, timeouts, cancels, execCount, 
-                                cancelOK, hit, userDone, fop, ut, fobj, item >>
+                                mgrStarted, mgr, unew, mnew, watch, ready, msg, 
+                                cur, nStop, nSent, crashes, timeouts, cancels, 
+                                execCount, cancelOK, hit, userDone, fop, ut, 
+                                fobj, item >>
+
+wrlrel0(self) == /\ pc[self] = "wrlrel0"
+                 /\ Alive(self)
+                 /\ rlock' = "free"
+                 /\ pc' = [pc EXCEPT ![self] = "wsem0"]
+                 /\ UNCHANGED << shutdownF, brokenF, killF, execAlive, 
+                                 refsDropped, globalExit, pending, fut, 
+                                 workIds, running, sem, buf, pipe, cqClosed, 
+                                 rdClosed, rq, wake, wkClosed, procs, alive, 
+                                 holding, exitLock, announced, wlock, mgmt, 
+                                 shut, mgrStarted, mgr, unew, mnew, watch, 
+                                 ready, msg, cur, nStop, nSent, crashes, 
+                                 timeouts, cancels, execCount, cancelOK, hit, 
+                                 userDone, fop, ut, fobj, item >>
+
+wsem0(self) == /\ pc[self] = "wsem0"
+               /\ Alive(self)
+               /\ sem' = sem + 1
+               /\ IF item[self] = Sentinel
+                     THEN /\ pc' = [pc EXCEPT ![self] = "wann"]
+                     ELSE /\ pc' = [pc EXCEPT ![self] = "wunl"]
+               /\ UNCHANGED << shutdownF, brokenF, killF, execAlive, 
+                               refsDropped, globalExit, pending, fut, workIds, 
+                               running, buf, pipe, cqClosed, rdClosed, rq, 
+                               wake, wkClosed, procs, alive, holding, exitLock, 
+                               announced, rlock, wlock, mgmt, shut, mgrStarted, 
+                               mgr, unew, mnew, watch, ready, msg, cur, nStop, 
+                               nSent, crashes, timeouts, cancels, execCount, 
+                               cancelOK, hit, userDone, fop, ut, fobj, item >>
 
 wunl(self) == /\ pc[self] = "wunl"
               /\ Alive(self)
@@ -1471,9 +1601,9 @@ wunl(self) == /\ pc[self] = "wunl"
                               running, sem, buf, pipe, cqClosed, rdClosed, 
                               wake, wkClosed, procs, holding, exitLock, 
                               announced, rlock, wlock, mgmt, shut, mgrStarted, 
-                              mgr, watch, ready, msg, cur, nStop, nSent, 
-                              crashes, timeouts, cancels, execCount, cancelOK, 
-                              hit, userDone, fop, ut, fobj, item >>
+                              mgr, unew, mnew, watch, ready, msg, cur, nStop, 
+                              nSent, crashes, timeouts, cancels, execCount, 
+                              cancelOK, hit, userDone, fop, ut, fobj, item >>
 
 wrun(self) == /\ pc[self] = "wrun"
               /\ Alive(self)
@@ -1485,8 +1615,8 @@ wrun(self) == /\ pc[self] = "wrun"
                               running, sem, buf, pipe, cqClosed, rdClosed, rq, 
                               wake, wkClosed, procs, alive, exitLock, 
                               announced, rlock, wlock, mgmt, shut, mgrStarted, 
-                              mgr, watch, ready, msg, cur, nStop, nSent, 
-                              crashes, timeouts, cancels, cancelOK, hit, 
+                              mgr, unew, mnew, watch, ready, msg, cur, nStop, 
+                              nSent, crashes, timeouts, cancels, cancelOK, hit, 
                               userDone, fop, ut, fobj, item >>
 
 wbody(self) == /\ pc[self] = "wbody"
@@ -1501,9 +1631,9 @@ wbody(self) == /\ pc[self] = "wbody"
                                running, sem, buf, pipe, cqClosed, rdClosed, rq, 
                                wake, wkClosed, procs, holding, exitLock, 
                                announced, rlock, wlock, mgmt, shut, mgrStarted, 
-                               mgr, watch, ready, msg, cur, nStop, nSent, 
-                               crashes, timeouts, cancels, execCount, cancelOK, 
-                               hit, userDone, fop, ut, fobj, item >>
+                               mgr, unew, mnew, watch, ready, msg, cur, nStop, 
+                               nSent, crashes, timeouts, cancels, execCount, 
+                               cancelOK, hit, userDone, fop, ut, fobj, item >>
 
 wwl(self) == /\ pc[self] = "wwl"
              /\ Alive(self) /\ wlock = "free"
@@ -1513,10 +1643,10 @@ wwl(self) == /\ pc[self] = "wwl"
                              globalExit, pending, fut, workIds, running, sem, 
                              buf, pipe, cqClosed, rdClosed, rq, wake, wkClosed, 
                              procs, alive, holding, exitLock, announced, rlock, 
-                             mgmt, shut, mgrStarted, mgr, watch, ready, msg, 
-                             cur, nStop, nSent, crashes, timeouts, cancels, 
-                             execCount, cancelOK, hit, userDone, fop, ut, fobj, 
-                             item >>
+                             mgmt, shut, mgrStarted, mgr, unew, mnew, watch, 
+                             ready, msg, cur, nStop, nSent, crashes, timeouts, 
+                             cancels, execCount, cancelOK, hit, userDone, fop, 
+                             ut, fobj, item >>
 
 wsend(self) == /\ pc[self] = "wsend"
                /\ Alive(self)
@@ -1529,9 +1659,9 @@ wsend(self) == /\ pc[self] = "wsend"
                                running, sem, buf, pipe, cqClosed, rdClosed, 
                                wake, wkClosed, procs, alive, holding, exitLock, 
                                announced, rlock, wlock, mgmt, shut, mgrStarted, 
-                               mgr, watch, ready, msg, cur, nStop, nSent, 
-                               crashes, timeouts, cancels, execCount, cancelOK, 
-                               hit, userDone, fop, ut, fobj, item >>
+                               mgr, unew, mnew, watch, ready, msg, cur, nStop, 
+                               nSent, crashes, timeouts, cancels, execCount, 
+                               cancelOK, hit, userDone, fop, ut, fobj, item >>
 
 wsend2(self) == /\ pc[self] = "wsend2"
                 /\ Alive(self)
@@ -1546,9 +1676,10 @@ wsend2(self) == /\ pc[self] = "wsend2"
                                 running, sem, buf, pipe, cqClosed, rdClosed, 
                                 wake, wkClosed, procs, alive, exitLock, 
                                 announced, rlock, wlock, mgmt, shut, 
-                                mgrStarted, mgr, watch, ready, msg, cur, nStop, 
-                                nSent, crashes, timeouts, cancels, execCount, 
-                                cancelOK, hit, userDone, fop, ut, fobj, item >>
+                                mgrStarted, mgr, unew, mnew, watch, ready, msg, 
+                                cur, nStop, nSent, crashes, timeouts, cancels, 
+                                execCount, cancelOK, hit, userDone, fop, ut, 
+                                fobj, item >>
 
 wwrel(self) == /\ pc[self] = "wwrel"
                /\ Alive(self)
@@ -1559,25 +1690,26 @@ wwrel(self) == /\ pc[self] = "wwrel"
                                running, sem, buf, pipe, cqClosed, rdClosed, rq, 
                                wake, wkClosed, procs, alive, holding, exitLock, 
                                announced, rlock, mgmt, shut, mgrStarted, mgr, 
-                               watch, ready, msg, cur, nStop, nSent, crashes, 
-                               timeouts, cancels, execCount, cancelOK, hit, 
-                               userDone, fop, ut, fobj, item >>
+                               unew, mnew, watch, ready, msg, cur, nStop, 
+                               nSent, crashes, timeouts, cancels, execCount, 
+                               cancelOK, hit, userDone, fop, ut, fobj, item >>
 
 wtmo(self) == /\ pc[self] = "wtmo"
               /\ Alive(self)
-              /\ IF mgmt = "free"
-                    THEN /\ mgmt' = self
-                         /\ pc' = [pc EXCEPT ![self] = "wmrel"]
-                    ELSE /\ pc' = [pc EXCEPT ![self] = "wrl"]
-                         /\ mgmt' = mgmt
+              /\ \/ /\ mgmt = "free"
+                    /\ mgmt' = self
+                    /\ pc' = [pc EXCEPT ![self] = "wmrel"]
+                 \/ /\ mgmt # "free" \/ pc["M"] \in {"mpop", "mrel", "mj1", "mj2"}
+                    /\ pc' = [pc EXCEPT ![self] = "wrl"]
+                    /\ mgmt' = mgmt
               /\ UNCHANGED << shutdownF, brokenF, killF, execAlive, 
                               refsDropped, globalExit, pending, fut, workIds, 
                               running, sem, buf, pipe, cqClosed, rdClosed, rq, 
                               wake, wkClosed, procs, alive, holding, exitLock, 
                               announced, rlock, wlock, shut, mgrStarted, mgr, 
-                              watch, ready, msg, cur, nStop, nSent, crashes, 
-                              timeouts, cancels, execCount, cancelOK, hit, 
-                              userDone, fop, ut, fobj, item >>
+                              unew, mnew, watch, ready, msg, cur, nStop, nSent, 
+                              crashes, timeouts, cancels, execCount, cancelOK, 
+                              hit, userDone, fop, ut, fobj, item >>
 
 wmrel(self) == /\ pc[self] = "wmrel"
                /\ Alive(self)
@@ -1588,9 +1720,9 @@ wmrel(self) == /\ pc[self] = "wmrel"
                                running, sem, buf, pipe, cqClosed, rdClosed, rq, 
                                wake, wkClosed, procs, alive, holding, exitLock, 
                                announced, rlock, wlock, shut, mgrStarted, mgr, 
-                               watch, ready, msg, cur, nStop, nSent, crashes, 
-                               timeouts, cancels, execCount, cancelOK, hit, 
-                               userDone, fop, ut, fobj, item >>
+                               unew, mnew, watch, ready, msg, cur, nStop, 
+                               nSent, crashes, timeouts, cancels, execCount, 
+                               cancelOK, hit, userDone, fop, ut, fobj, item >>
 
 wann(self) == /\ pc[self] = "wann"
               /\ Alive(self) /\ wlock = "free"
@@ -1601,9 +1733,9 @@ wann(self) == /\ pc[self] = "wann"
                               running, sem, buf, pipe, cqClosed, rdClosed, rq, 
                               wake, wkClosed, procs, alive, holding, exitLock, 
                               announced, rlock, mgmt, shut, mgrStarted, mgr, 
-                              watch, ready, msg, cur, nStop, nSent, crashes, 
-                              timeouts, cancels, execCount, cancelOK, hit, 
-                              userDone, fop, ut, fobj, item >>
+                              unew, mnew, watch, ready, msg, cur, nStop, nSent, 
+                              crashes, timeouts, cancels, execCount, cancelOK, 
+                              hit, userDone, fop, ut, fobj, item >>
 
 wann2(self) == /\ pc[self] = "wann2"
                /\ Alive(self)
@@ -1614,10 +1746,10 @@ wann2(self) == /\ pc[self] = "wann2"
                                refsDropped, globalExit, pending, fut, workIds, 
                                running, sem, buf, pipe, cqClosed, rdClosed, 
                                wake, wkClosed, procs, alive, holding, exitLock, 
-                               rlock, wlock, mgmt, shut, mgrStarted, mgr, 
-                               watch, ready, msg, cur, nStop, nSent, crashes, 
-                               timeouts, cancels, execCount, cancelOK, hit, 
-                               userDone, fop, ut, fobj, item >>
+                               rlock, wlock, mgmt, shut, mgrStarted, mgr, unew, 
+                               mnew, watch, ready, msg, cur, nStop, nSent, 
+                               crashes, timeouts, cancels, execCount, cancelOK, 
+                               hit, userDone, fop, ut, fobj, item >>
 
 wann3(self) == /\ pc[self] = "wann3"
                /\ Alive(self)
@@ -1628,20 +1760,24 @@ wann3(self) == /\ pc[self] = "wann3"
                                running, sem, buf, pipe, cqClosed, rdClosed, rq, 
                                wake, wkClosed, procs, alive, holding, exitLock, 
                                announced, rlock, mgmt, shut, mgrStarted, mgr, 
-                               watch, ready, msg, cur, nStop, nSent, crashes, 
-                               timeouts, cancels, execCount, cancelOK, hit, 
-                               userDone, fop, ut, fobj, item >>
+                               unew, mnew, watch, ready, msg, cur, nStop, 
+                               nSent, crashes, timeouts, cancels, execCount, 
+                               cancelOK, hit, userDone, fop, ut, fobj, item >>
 
 wexl(self) == /\ pc[self] = "wexl"
-              /\ Alive(self) /\ exitLock[self] = 1
+              /\ Alive(self)
+              /\ \/ /\ exitLock[self] = 1
+                    /\ UNCHANGED timeouts
+                 \/ /\ exitLock[self] # 1 /\ timeouts < MaxTimeout
+                    /\ timeouts' = timeouts + 1
               /\ pc' = [pc EXCEPT ![self] = "wexit"]
               /\ UNCHANGED << shutdownF, brokenF, killF, execAlive, 
                               refsDropped, globalExit, pending, fut, workIds, 
                               running, sem, buf, pipe, cqClosed, rdClosed, rq, 
                               wake, wkClosed, procs, alive, holding, exitLock, 
                               announced, rlock, wlock, mgmt, shut, mgrStarted, 
-                              mgr, watch, ready, msg, cur, nStop, nSent, 
-                              crashes, timeouts, cancels, execCount, cancelOK, 
+                              mgr, unew, mnew, watch, ready, msg, cur, nStop, 
+                              nSent, crashes, cancels, execCount, cancelOK, 
                               hit, userDone, fop, ut, fobj, item >>
 
 wexit(self) == /\ pc[self] = "wexit"
@@ -1653,9 +1789,9 @@ wexit(self) == /\ pc[self] = "wexit"
                                running, sem, buf, pipe, cqClosed, rdClosed, rq, 
                                wake, wkClosed, procs, holding, exitLock, 
                                announced, rlock, wlock, mgmt, shut, mgrStarted, 
-                               mgr, watch, ready, msg, cur, nStop, nSent, 
-                               crashes, timeouts, cancels, execCount, cancelOK, 
-                               hit, userDone, fop, ut, fobj, item >>
+                               mgr, unew, mnew, watch, ready, msg, cur, nStop, 
+                               nSent, crashes, timeouts, cancels, execCount, 
+                               cancelOK, hit, userDone, fop, ut, fobj, item >>
 
 wend(self) == /\ pc[self] = "wend"
               /\ TRUE
@@ -1665,18 +1801,18 @@ wend(self) == /\ pc[self] = "wend"
                               running, sem, buf, pipe, cqClosed, rdClosed, rq, 
                               wake, wkClosed, procs, alive, holding, exitLock, 
                               announced, rlock, wlock, mgmt, shut, mgrStarted, 
-                              mgr, watch, ready, msg, cur, nStop, nSent, 
-                              crashes, timeouts, cancels, execCount, cancelOK, 
-                              hit, userDone, fop, ut, fobj, item >>
+                              mgr, unew, mnew, watch, ready, msg, cur, nStop, 
+                              nSent, crashes, timeouts, cancels, execCount, 
+                              cancelOK, hit, userDone, fop, ut, fobj, item >>
 
 worker(self) == w0(self) \/ winit(self) \/ wrl(self) \/ wpoll(self)
                    \/ wrlt(self) \/ wrecv(self) \/ wsem(self)
-                   \/ wrlrel(self) \/ wunl(self) \/ wrun(self)
-                   \/ wbody(self) \/ wwl(self) \/ wsend(self)
-                   \/ wsend2(self) \/ wwrel(self) \/ wtmo(self)
-                   \/ wmrel(self) \/ wann(self) \/ wann2(self)
-                   \/ wann3(self) \/ wexl(self) \/ wexit(self)
-                   \/ wend(self)
+                   \/ wrlrel(self) \/ wrlrel0(self) \/ wsem0(self)
+                   \/ wunl(self) \/ wrun(self) \/ wbody(self) \/ wwl(self)
+                   \/ wsend(self) \/ wsend2(self) \/ wwrel(self)
+                   \/ wtmo(self) \/ wmrel(self) \/ wann(self)
+                   \/ wann2(self) \/ wann3(self) \/ wexl(self)
+                   \/ wexit(self) \/ wend(self)
 
 e0 == /\ pc["E"] = "e0"
       /\ IF crashes < MaxCrash
@@ -1686,7 +1822,7 @@ e0 == /\ pc["E"] = "e0"
                       /\ hit' = (hit \cup (IF pc[p] = "wsend2" /\ holding[p] # 0 /\ Kind[holding[p]] = "big" THEN {"D7"} ELSE {})
                                      \cup (IF mgmt = p THEN {"D14"} ELSE {})
                                      \cup (IF pc[p] = "wann3" THEN {"D15"} ELSE {})
-                                     \cup (IF pc["M"] \in {"mspend", "mj1", "mj2", "mj3", "mj4", "mj5l", "mj5"} /\ ~brokenF /\ ~JoinWatches THEN {"D16"} ELSE {}))
+                                     \cup (IF pc["M"] \in {"mspend", "mj1", "mj2", "mj3", "mj4", "mj5l", "mj5", "mj5k"} /\ ~brokenF /\ ~JoinWatches THEN {"D16"} ELSE {}))
                  /\ pc' = [pc EXCEPT !["E"] = "e0"]
             ELSE /\ pc' = [pc EXCEPT !["E"] = "Done"]
                  /\ UNCHANGED << alive, crashes, hit >>
@@ -1694,9 +1830,9 @@ e0 == /\ pc["E"] = "e0"
                       globalExit, pending, fut, workIds, running, sem, buf, 
                       pipe, cqClosed, rdClosed, rq, wake, wkClosed, procs, 
                       holding, exitLock, announced, rlock, wlock, mgmt, shut, 
-                      mgrStarted, mgr, watch, ready, msg, cur, nStop, nSent, 
-                      timeouts, cancels, execCount, cancelOK, userDone, fop, 
-                      ut, fobj, item >>
+                      mgrStarted, mgr, unew, mnew, watch, ready, msg, cur, 
+                      nStop, nSent, timeouts, cancels, execCount, cancelOK, 
+                      userDone, fop, ut, fobj, item >>
 
 env == e0
 
@@ -1727,7 +1863,7 @@ CancelMeansNeverRun == \A t \in cancelOK : execCount[t] = 0 /\ fut[t] = "cancell
 RightFuture == \A t \in Tasks : fut[t] = "result" => execCount[t] = 1 /\ Kind[t] \in {"ok", "big", "huge"}
 \* C04: call-queue slots are conserved on every path, including the feeder error path
 SlotConservation == sem + Len(buf) + Len(pipe) + (IF pc["F"] \in {"fsend", "fhuge"} THEN 1 ELSE 0)
-                      + Cardinality({p \in Pids : pc[p] = "wsem"}) = QSize
+                      + Cardinality({p \in Pids : pc[p] \in {"wsem", "wrlrel0", "wsem0"}}) = QSize
 \* C08
 BoundedParallelism == Cardinality(procs) <= MaxW /\ Cardinality(Busy) <= MaxW
 \* C02 (design level): a broken pool leaves no future pending once the manager is done
